@@ -37,6 +37,24 @@ def generate(rng, tier):
             if rng.random() < 0.06:
                 sup = rng.choice([["tl", []], ["seg", [5, 5]]])      # falsy supports: must not be taken for "no support"
             cases.append({"regime": regime, "a": a, "b": b, "collar": collar, "sup": sup})
+    # collision families for argmax(support): an outer segment and an inner one with the same track name and different
+    # labels, a support piece that cuts the outer one down to exactly the inner one, and a third track that decides
+    # which label is maximal within the support only if no track was lost while cropping
+    import itertools
+    unit = {"K0": 1, "K4": 5, "K1": 1}
+    for regime in ("K0", "K4", "K1"):
+        w = unit[regime]
+        for (u, e), (da, db), tr, order, extra, lab in itertools.product(
+                [(3, 5), (4, 8)], [(3, 6), (0, 5), (2, 0), (1, 1)], ["_", 0], (0, 1), (1, 2, 3),
+                [("a", "b"), (0, "a"), ("b", 1)]):
+            inner = [[u * w, e * w], tr, lab[1]]
+            outer = [[(u - da) * w, (e + db) * w], tr, lab[0]]
+            third = [[(e + 2) * w, (e + 2 + extra) * w], "z", lab[1]]
+            a = [outer, inner, third] if order == 0 else [inner, third, outer]
+            sup = ["tl", [[u * w, e * w], [(e + 2) * w, (e + 5) * w]]]
+            if tier != "thorough" and (da + extra + order) % 2 and regime != "K0":
+                continue
+            cases.append({"regime": regime, "a": a, "b": [], "collar": 0, "sup": sup})
     return {"cases": cases, "meta": {"exhaustive": False,
                                      "sizes": gen.stats(cases, {"n_a": lambda c: len(c["a"]), "n_b": lambda c: len(c["b"]),
                                                                 "collar": lambda c: min(c["collar"], 10)})}}
